@@ -15,7 +15,7 @@ use std::hash::{Hash, Hasher};
 
 #[derive(Clone, Debug, PartialEq)]
 enum Ev {
-    /// kind 1 = QoS 1 publish, 2 = QoS 2 publish, 3 = subscribe; payload size
+    /// kind 1 = QoS 1 publish, 2 = QoS 2 publish, 3 = subscribe, 4 = unsubscribe; payload size
     Req(u8, usize),
     Pub0(usize),
     /// final / first acknowledgement for the i-th retained entry (PUBACK, SUBACK, PUBREC success)
@@ -90,6 +90,32 @@ fn battery(bench: &Bench, conn: &mut Connection<'_, '_, VirtualIo>, id: usize, t
     out.push(format!("subscribe: {}", r));
     bench.push(id, &[0x90, 0x04, 0x00, 0x01, 0x00, 0x00]);
     let _ = poll_until_blocked(bench, conn, id);
+    // (3a) one unsubscribe
+    conn.verif_session_mut().verif_set_next_packet_id(1);
+    let r = match bench.run(conn.unsubscribe(&["probe"], &[]), id) {
+        Some(Ok(_)) => "Ok".to_string(),
+        Some(Err(e)) => format!("{:?}", Res::from_err(&e)),
+        None => "blocked".to_string(),
+    };
+    out.push(format!("unsubscribe: {}", r));
+    bench.push(id, &[0xB0, 0x04, 0x00, 0x01, 0x00, 0x00]);
+    let _ = poll_until_blocked(bench, conn, id);
+    // (3a') the window is still whole after them
+    let mut results = Vec::new();
+    for k in 0..9u16 {
+        conn.verif_session_mut().verif_set_next_packet_id(k + 1);
+        let r = match bench.run(conn.publish(Publication::bytes("t", &big[..0]).qos(QoS::AtLeastOnce)), id) {
+            Some(Ok(_)) => "Ok".to_string(),
+            Some(Err(e)) => format!("{:?}", Res::from_pub(&e)),
+            None => "blocked".to_string(),
+        };
+        results.push(r);
+    }
+    out.push(format!("nine minimal QoS 1 publishes after subscribe and unsubscribe: {:?}", results));
+    for k in 0..9u16 {
+        bench.push(id, &[0x40, 0x02, 0x00, (k + 1) as u8]);
+    }
+    let _ = poll_until_blocked(bench, conn, id);
     // (3b) the largest QoS 1 payload accepted
     let mut max_ok: Option<usize> = None;
     for size in (0..=tx).rev() {
@@ -122,8 +148,8 @@ impl C17 {
     pub fn new(label: &str, tx: usize, sizes: &[usize], kinds: &[u8], pub0: bool, max_live: usize, fail_rec: bool, id_bound: u16) -> C17 {
         let mut events = Vec::new();
         for k in kinds {
-            if *k == 3 {
-                events.push(Ev::Req(3, 0));
+            if *k == 3 || *k == 4 {
+                events.push(Ev::Req(*k, 0));
             } else {
                 for s in sizes {
                     events.push(Ev::Req(*k, *s));
@@ -204,6 +230,7 @@ impl C17 {
                 .map(|l| match l.kind {
                     1 => "publish1",
                     2 => "publish2",
+                    4 => "unsubscribe",
                     _ => "subscribe",
                 })
                 .collect();
@@ -304,6 +331,10 @@ impl Model for C17 {
                                         .run(conn.publish(Publication::bytes("t", &payload).qos(qos_of(kind))), id)
                                         .map(|r| r.map(|_| ()).map_err(|e| Res::from_pub(&e)))
                                         .unwrap_or(Err(Res::Cancelled)),
+                                    4 => bench
+                                        .run(conn.unsubscribe(&[filter.as_str()], &[]), id)
+                                        .map(|r| r.map(|_| ()).map_err(|e| Res::from_err(&e)))
+                                        .unwrap_or(Err(Res::Cancelled)),
                                     _ => bench
                                         .run(conn.subscribe(&[TopicFilter::new(&filter)], &[]), id)
                                         .map(|r| r.map(|_| ()).map_err(|e| Res::from_err(&e)))
@@ -352,6 +383,7 @@ impl Model for C17 {
                                     1 => bench.push(id, &[0x40, 0x02, hi, lo]),
                                     2 if fail => bench.push(id, &[0x50, 0x03, hi, lo, 0x80]),
                                     2 => bench.push(id, &[0x50, 0x02, hi, lo]),
+                                    4 => bench.push(id, &[0xB0, 0x04, hi, lo, 0x00, 0x00]),
                                     _ => bench.push(id, &[0x90, 0x04, hi, lo, 0x00, 0x00]),
                                 }
                                 let e = poll_until_blocked(bench, &mut conn, id);
@@ -466,19 +498,19 @@ pub fn models(tier: Tier) -> Vec<C17> {
     let q = tier == Tier::Quick;
     let mut v = vec![
         // tiny arena, mixed kinds and sizes, acknowledgements in any order, QoS 0 traffic in between
-        C17::new("C17-arena-48-mixed", 48, &[0, 7], &[1, 2, 3], true, if q { 3 } else { 4 }, false, 0),
+        C17::new("C17-arena-48-mixed", 48, &[0, 7], &[1, 2, 3, 4], true, if q { 3 } else { 4 }, false, 0),
         // all eight slots, one kind: slot leaks and ordering with many entries
         C17::new("C17-arena-96-eight-slots", 96, &[0], &[1], false, 8, false, if q { 10 } else { 12 }),
         // a payload that fills the arena on its own
         C17::new("C17-arena-64-filling-payload", 64, &[1, 54], &[1, 2], true, 3, true, 0),
         // roomy arena, so that the eight in-flight slots (not the bytes) are the limit, with all request kinds
-        C17::new("C17-arena-200-slot-limited-mixed-kinds", 200, &[0], &[1, 2, 3], false, 3, false, 0),
+        C17::new("C17-arena-200-slot-limited-mixed-kinds", 200, &[0], &[1, 2, 3, 4], false, 3, false, 0),
         // a QoS 0 publish whose fixed header is longer than that of the retained packets
         C17::new("C17-arena-400-long-header-scratch", 400, &[1, 140], &[1], true, 2, false, 0),
     ];
     if !q {
         v.push(C17::new("C17-arena-40", 40, &[0, 1, 7, 20], &[1, 2, 3], true, 3, true, 0));
-        v.push(C17::new("C17-arena-200-mixed", 200, &[0, 1, 7, 100], &[1, 2, 3], true, 4, true, 0));
+        v.push(C17::new("C17-arena-200-mixed", 200, &[0, 1, 7, 100], &[1, 2, 3, 4], true, 4, true, 0));
         v.push(C17::new("C17-arena-96-six-slots-qos2", 96, &[0], &[2], false, 6, false, 8));
         v.push(C17::new("C17-arena-64-five-slots-two-sizes", 64, &[0, 7], &[1, 2], false, 5, false, 8));
         v.push(C17::new("C17-arena-600-long-headers-mixed", 600, &[0, 130, 200], &[1, 2, 3], true, 3, false, 0));
